@@ -117,6 +117,11 @@ func (s *sink) single(c Case, confirm bool) runResult {
 	} else {
 		r = execCase(c)
 	}
+	if r.Verdict == "inconclusive" {
+		s.Dirty = true
+		s.count("inconclusive:starved-in-confirmation")
+		return r
+	}
 	if r.Verdict == "hang" {
 		s.Dirty = true
 		if !confirm {
